@@ -3436,9 +3436,11 @@ void CheckOther::redundantCopyError(const Token *tok,const std::string& varname)
 // Checking for shift by negative values
 //---------------------------------------------------------------------------
 
-static bool isNegative(const Token *tok, const Settings &settings)
+static const ValueFlow::Value *getNegativeValue(const Token *tok, const Settings &settings)
 {
-    return tok->valueType() && tok->valueType()->sign == ValueType::SIGNED && tok->getValueLE(-1LL, settings);
+    if (!tok->valueType() || tok->valueType()->sign != ValueType::SIGNED)
+        return nullptr;
+    return tok->getValueLE(-1LL, settings);
 }
 
 void CheckOther::checkNegativeBitwiseShift()
@@ -3475,23 +3477,23 @@ void CheckOther::checkNegativeBitwiseShift()
             continue;
 
         // Get negative rhs value. preferably a value which doesn't have 'condition'.
-        if (portability && isNegative(tok->astOperand1(), *mSettings))
+        if (portability && getNegativeValue(tok->astOperand1(), *mSettings))
             negativeBitwiseShiftError(tok, 1);
-        else if (isNegative(tok->astOperand2(), *mSettings))
-            negativeBitwiseShiftError(tok, 2);
+        else if (const ValueFlow::Value *value = getNegativeValue(tok->astOperand2(), *mSettings))
+            negativeBitwiseShiftError(tok, 2, value);
     }
 }
 
 
-void CheckOther::negativeBitwiseShiftError(const Token *tok, int op)
+void CheckOther::negativeBitwiseShiftError(const Token *tok, int op, const ValueFlow::Value *value)
 {
     if (op == 1)
         // LHS - this is used by intention in various software, if it
         // is used often in a project and works as expected then this is
         // a portability issue
         reportError(tok, Severity::portability, "shiftNegativeLHS", "Shifting a negative value is technically undefined behaviour", CWE758, Certainty::normal);
-    else // RHS
-        reportError(tok, Severity::error, "shiftNegative", "Shifting by a negative value is undefined behaviour", CWE758, Certainty::normal);
+    else // RHS - a shift count that depends on a condition or a default argument is a warning, as in the other value based checks
+        reportError(tok, (!value || value->errorSeverity()) ? Severity::error : Severity::warning, "shiftNegative", "Shifting by a negative value is undefined behaviour", CWE758, Certainty::normal);
 }
 
 //---------------------------------------------------------------------------
